@@ -285,7 +285,7 @@ impl CompactionWorker {
                 "Compaction thread found an immutable memtable to compact. Proceeding with \
                 memtable compaction."
             );
-            CompactionWorker::compact_memtable(db_state, db_fields_guard);
+            CompactionWorker::compact_memtable(db_state, db_fields_guard, true);
             return;
         }
 
@@ -505,6 +505,9 @@ impl CompactionWorker {
     /**
     Performs a compaction routine on the immutable memtable.
 
+    If `allow_deeper_level` is false, the new table file is added to level 0 even if it could be
+    pushed to a deeper level.
+
     # Panics
 
     An immutable memtable must exist if this method is called.
@@ -512,6 +515,7 @@ impl CompactionWorker {
     fn compact_memtable(
         db_state: &PortableDatabaseState,
         db_fields_guard: &mut MutexGuard<GuardedDbFields>,
+        allow_deeper_level: bool,
     ) {
         assert!(db_fields_guard.maybe_immutable_memtable.is_some());
 
@@ -523,7 +527,11 @@ impl CompactionWorker {
             db_state,
             db_fields_guard,
             Arc::clone(&immutable_memtable),
-            Some(&base_version),
+            if allow_deeper_level {
+                Some(&base_version)
+            } else {
+                None
+            },
             &mut change_manifest,
         );
         db_fields_guard.version_set.release_version(base_version);
@@ -682,7 +690,15 @@ impl CompactionWorker {
                         let memtable_compaction_start = Instant::now();
                         let mut db_mutex_guard = db_state.guarded_db_fields.lock();
                         if db_mutex_guard.maybe_immutable_memtable.is_some() {
-                            CompactionWorker::compact_memtable(db_state, &mut db_mutex_guard);
+                            // The outputs of this compaction are not part of any version yet
+                            // but will cover the whole range of its inputs, including the gaps
+                            // between them. A table placed below level 0 now could end up
+                            // overlapping them, so it must stay in level 0.
+                            CompactionWorker::compact_memtable(
+                                db_state,
+                                &mut db_mutex_guard,
+                                false,
+                            );
 
                             // Notify waiting writers if there are any
                             db_state.background_work_finished_signal.notify_all();
